@@ -81,6 +81,16 @@ def core_definitions():
     # several zero-size droppable data of ONE type, which end up at the same offset
     ds.append(("two_zst_same_type", ["clone", "serde"], [A("t", "Tracked"), A("g1", "ZstDrop"), A("g2", "ZstDrop"), A("z1", "Zst"), A("z2", "Zst"), C(),
                                                          R("g1"), A("g3", "ZstDrop"), C(), R("t"), C("basic")]))
+    # an over-aligned zero-size datum LAST in memory behind a padding hole, then data appended,
+    # then a variant closed with the default strategy
+    ds.append(("zst_last_append", ["clone"], [A("a", "P1"), A("z", "ZstA8"), C("append"), A("b", "P2"), A("x", "Odd3"), C("append"),
+                                              A("c", "P4", True), A("t", "TrackedOdd"), C(), R("b"), A("d", "P2"), C()]))
+    # one step adds fields in the order mandatory, may-be-uninitialised, mandatory (twice)
+    ds.append(("mand_opt_mand", ["clone", "serde"], [A("k", "P4"), C(), A("m1", "Tracked"), A("o1", "P4", True), A("m2", "Str"), C(),
+                                                     R("k"), A("m3", "P8"), A("o2", "P2", True), A("o3", "Odd3", True), A("m4", "TrackedOdd"), C("basic")]))
+    # later variants that add only may-be-uninitialised data / nothing while carrying droppable data
+    ds.append(("serde_later_uninit", ["clone", "serde"], [A("label", "Tracked"), A("count", "P4"), A("name", "Str"), C(),
+                                                          A("flag", "P1", True), C(), R("count"), C(), A("w", "Over16", True), C()]))
     # a zero-size datum is the most-aligned field of the definition (alignment marker)
     ds.append(("zst_overalign", ["clone"], [A("a", "P4"), A("b", "P2"), A("c", "Odd3"), C(), R("a"), A("marker", "ZstA8"), C(),
                                             A("t", "TrackedOdd"), C("basic")]))
@@ -608,7 +618,7 @@ def pipeline(tier, seed):
         bins, errs = build_lab()
         res["compile_failures"] = []
         rounds = 0
-        while errs and rounds < 3:
+        while errs and rounds < 10:
             # a generated module that does not compile is DATA (C13): name the definitions,
             # drop them and go on with the rest of the lab
             rounds += 1
@@ -620,14 +630,16 @@ def pipeline(tier, seed):
             for did in failing:
                 first = re.search(r"(error[^\n]*\n[^\n]*gen/d%d_(?:gen|drv)\.rs[^\n]*)" % did, text)
                 in_gen = re.search(r"gen/d%d_gen\.rs" % did, text) is not None
-                out_field = re.search(r"no field `\w+` on type `[\w:]*Record\d+AndUnpackedOut", text) is not None \
+                out_field = (re.search(r"no field `\w+` on type `[\w:]*Record\d+AndUnpackedOut", text) is not None
+                             or re.search(r"pattern does not mention field", text) is not None
+                             or re.search(r"Record\d+AndUnpackedOut[^\n]* does not have a field", text) is not None) \
                     and re.search(r"gen/d%d_drv\.rs" % did, text) is not None
                 entry = {"did": did, "name": defs[did - 1]["name"], "definition": defs[did - 1],
                          "error": first.group(1)[:600] if first else ""}
                 if not in_gen and out_field and not defs[did - 1].get("no_out"):
                     # the generated module compiles but its and-out result type lacks a removed field
                     # (C05); go on with a degraded driver so that the other forms are still exercised
-                    entry["kind"] = "and-out-type-lacks-removed-field"
+                    entry["kind"] = "and-out-type-differs-from-the-removed-fields"
                     defs[did - 1]["no_out"] = True
                 else:
                     entry["kind"] = "does-not-compile"
